@@ -118,7 +118,15 @@ def model_states(sig, b, mode='tokens'):
   for pres in itertools.product((False, True), repeat=m.P):
     for vlen in (range(b['max_v'] + 1) if m.has_var else (0,)):
       for kos in itertools.product((False, True), repeat=len(m.ko_names)):
-        for extra in ((False, True) if m.has_kw else (False,)):
+        extras = [None]
+        if m.has_kw:
+          extras.append('x1')
+          # a **kwargs entry named like a positional-only / *args parameter
+          if m.po_names:
+            extras.append(m.po_names[0])
+          if m.has_var:
+            extras.append('va')
+        for extra in extras:
           mm = M.Model(sig)
           counter = [0]
 
@@ -136,7 +144,7 @@ def model_states(sig, b, mode='tokens'):
             if on:
               mm.K[n] = val(f'v_{n}')
           if extra:
-            mm.K['x1'] = val('v_x1')
+            mm.K[extra] = val('v_x1' if extra == 'x1' else 'v_c_' + extra)
           yield mm
 
 
@@ -221,6 +229,17 @@ def reference(fn, model, subst):
 
 def check_case(sig, fname, fn, model, way, nest, res, case):
   """One build vs one direct call."""
+  collide = [k for k in model.K if k in model.po_names or k == 'va']
+  if collide and way in ('edit', 'set_then_delete'):
+    res.counters['way_cannot_express_state'] += 1
+    return
+  for k in collide:
+    i = model.slot_index(k)
+    if i is not None and model.prefix[i] is M.UNSET:
+      # inspect.Signature.bind_partial rejects f(p0=..) without a positional
+      # p0: the constructor cannot express this state
+      res.counters['way_cannot_express_state'] += 1
+      return
   cfg = construct(way, fn, model)
   if cfg is None:
     res.counters['way_cannot_express_state'] += 1
@@ -338,6 +357,9 @@ def run_unit(unit, tier, seed):
       tokens = [v for v in model.prefix if v is not M.UNSET] + list(
           model.V) + list(model.K.values())
       if not tokens:
+        continue
+      tokens = [t for t in tokens if not str(t).startswith('v_c_')]
+      if not tokens or any(k in model.po_names or k == 'va' for k in model.K):
         continue
       targets = tokens if fname == 'fn' else tokens[:1]
       for nname in NEST:
